@@ -77,6 +77,7 @@ def make_query(rng, ref, name, nrec=None, conflict=False, rich=True):
         flag = 0 if k == 0 else 2048
         if rng.random() < 0.15:
             flag |= 16
+        flag |= rng.choice([0, 0, 0, 0, 1 | 2 | 64, 1 | 32 | 128, 512, 1024])      # bits that say nothing about whether the record counts
         recs.append({"name": name, "flag": flag, "pos": pos, "cigar": cig, "seq": seq})
     return recs
 
@@ -136,13 +137,16 @@ def noise_record(rng, ref, name):
     if rng.random() < 0.5:
         pos = rng.randint(0, n - 1)
         cig = random_cigar(rng, n - pos)
-        return {"name": name, "flag": 256 | rng.choice([0, 16]), "pos": pos, "cigar": cig, "seq": build_seq(rng, cig, pos, gen.rand_seq(rng, n))}
+        # secondary: bit 0x100 with any other bits beside it (QC-fail 0x200, duplicate 0x400, supplementary 0x800 as
+        # `bwa mem -a` writes, reverse 0x10, pair bits)
+        return {"name": name, "flag": 256 | rng.choice([0, 16]) | rng.choice([0, 0, 512, 1024, 2048, 2048 | 16, 1 | 2 | 64, 512 | 1024]), "pos": pos, "cigar": cig, "seq": build_seq(rng, cig, pos, gen.rand_seq(rng, n))}
     pos = rng.randint(0, n - 1)
     cig = random_cigar(rng, n - pos)
-    return {"name": name, "flag": 4, "pos": pos, "cigar": cig, "seq": build_seq(rng, cig, pos, gen.rand_seq(rng, n))}
+    return {"name": name, "flag": 4 | rng.choice([0, 0, 1 | 8 | 64, 512, 16, 256]), "pos": pos, "cigar": cig, "seq": build_seq(rng, cig, pos, gen.rand_seq(rng, n))}
 
 
-def render_sam(refname, reflen, recs, header=True):
+def render_sam(refname, reflen, recs, header=True, trail=True):
+    """trail=False: the last line is not terminated by a newline (a legal text file; editors and `printf` make them)."""
     out = []
     if header:
         out.append("@HD\tVN:1.6\tSO:unsorted")
@@ -151,7 +155,7 @@ def render_sam(refname, reflen, recs, header=True):
         cig = "".join("%d%s" % (l, o) for o, l in r["cigar"]) or "*"
         seq = r["seq"] or "*"
         out.append("\t".join([r["name"], str(r["flag"]), refname, str(r["pos"] + 1), "60", cig, "*", "0", "0", seq, "*"]))
-    return ("\n".join(out) + "\n").encode()
+    return ("\n".join(out) + ("\n" if trail else "")).encode()
 
 
 # ---------------------------------------------------------------- oracle from the statement (C01)
